@@ -14,7 +14,9 @@ Table = list[list[str]]          # first row = header
 SAFE = "ABCDEFGHIJabcdefghij0123456789"
 PUNCT = "![]|^#$@"       # in every EBCDIC-able table: characters on which the EBCDIC code pages (037, 500, 1047) differ
 TRICKY = ["x,y", 'say "hi"', "007", "0.50", "1e5", " lead", "trail ", "tab\there", "semi;colon", "é", "naïve", "Ω", "a'b", "-5", "TRUE",
-          "#N/A", "=1+1", "line1 line2", "null", "None", "{}", "[1]"]
+          "#N/A", "=1+1", "line1 line2", "null", "None", "{}", "[1]",
+          # characters str.splitlines() breaks on but file iteration does not (NEL, LINE / PARAGRAPH SEPARATOR): ordinary cell text
+          "a\u2028b", "c\u0085d", "e\u2029f"]
 
 
 def gen_table(rng, *, n_cols: Optional[int] = None, n_rows: Optional[int] = None, tricky: float = 0.4, fixed_safe: bool = False,
